@@ -533,6 +533,80 @@ pub proof fn lemma_single_loc(f: &Function, v: Seq<RefProgramLocation>, x: RefFu
     }
 }
 
+/// `lists_rpls` only depends on the extension of the selector
+pub proof fn lemma_lists_rpls_ext(v: Seq<RefProgramLocation>, f: Function, s1: spec_fn(Loc) -> bool, s2: spec_fn(Loc) -> bool)
+    requires lists_rpls(v, f, s1), forall|l: Loc| #![trigger s1(l)] #![trigger s2(l)] s1(l) <==> s2(l),
+    ensures lists_rpls(v, f, s2),
+{
+    assert forall|l: Loc| #[trigger] s2(l) implies exists|i: int| 0 <= i < v.len() && loc_of((#[trigger] v[i]).function_location) == l by {
+        assert(s1(l));
+    }
+}
+
+/// in a well-formed function the position of an instruction index inside its block is unique, so the
+/// forward step from the instruction at position `p` is determined by `p`
+pub proof fn lemma_succ_instr_at(f: Function, b: usize, p: int, i: usize)
+    requires f.function_wf(), f.control_flow_graph.has_block(b), instr_at(f.control_flow_graph.blocks_view()[b], p, i),
+    ensures
+        forall|l2: Loc| #[trigger] succ_instr(f, b, i, l2) <==> (
+            if p + 1 < f.control_flow_graph.blocks_view()[b].instructions@.len() {
+                l2 == Loc::Instruction(b, f.control_flow_graph.blocks_view()[b].instructions@[p + 1].index)
+            } else { is_out_edge(f, b, l2) }),
+{
+    let blk = f.control_flow_graph.graph.vertices@[b];
+    assert(blk.block_wf());
+    assert forall|l2: Loc| #[trigger] succ_instr(f, b, i, l2) <==> (
+            if p + 1 < blk.instructions@.len() { l2 == Loc::Instruction(b, blk.instructions@[p + 1].index) } else { is_out_edge(f, b, l2) }) by {
+        if succ_instr(f, b, i, l2) {
+            let q = choose|q: int| #[trigger] instr_at(blk, q, i) && (
+                if q + 1 < blk.instructions@.len() { l2 == Loc::Instruction(b, blk.instructions@[q + 1].index) } else { is_out_edge(f, b, l2) });
+            if q < p { assert(blk.instructions@[q].index != blk.instructions@[p].index); }
+            if p < q { assert(blk.instructions@[p].index != blk.instructions@[q].index); }
+        }
+    }
+}
+
+/// the same for the backward step
+pub proof fn lemma_pred_instr_at(f: Function, b: usize, p: int, i: usize)
+    requires f.function_wf(), f.control_flow_graph.has_block(b), instr_at(f.control_flow_graph.blocks_view()[b], p, i),
+    ensures
+        forall|l2: Loc| #[trigger] pred_instr(f, b, i, l2) <==> (
+            if p > 0 { l2 == Loc::Instruction(b, f.control_flow_graph.blocks_view()[b].instructions@[p - 1].index) }
+            else { is_in_edge(f, b, l2) }),
+{
+    let blk = f.control_flow_graph.graph.vertices@[b];
+    assert(blk.block_wf());
+    assert forall|l2: Loc| #[trigger] pred_instr(f, b, i, l2) <==> (
+            if p > 0 { l2 == Loc::Instruction(b, blk.instructions@[p - 1].index) } else { is_in_edge(f, b, l2) }) by {
+        if pred_instr(f, b, i, l2) {
+            let q = choose|q: int| #[trigger] instr_at(blk, q, i) && (
+                if q > 0 { l2 == Loc::Instruction(b, blk.instructions@[q - 1].index) } else { is_in_edge(f, b, l2) });
+            if q < p { assert(blk.instructions@[q].index != blk.instructions@[p].index); }
+            if p < q { assert(blk.instructions@[p].index != blk.instructions@[q].index); }
+        }
+    }
+}
+
+/// `succ` / `pred` from a location of `f`, case by case (the validity conjunct is discharged)
+pub proof fn lemma_step_cases(f: Function, x: RefFunctionLocation)
+    requires rfl_in(f, x),
+    ensures
+        loc_valid(f, loc_of(x)),
+        x matches RefFunctionLocation::Instruction(b, ins) ==> b.has_instruction(ins.index),
+        forall|l2: Loc| #[trigger] succ(f, loc_of(x), l2) <==> (match x {
+            RefFunctionLocation::Instruction(b, ins) => succ_instr(f, b.index, ins.index, l2),
+            RefFunctionLocation::Edge(e) => is_block_start(f, e.tail, l2),
+            RefFunctionLocation::EmptyBlock(b) => is_out_edge(f, b.index, l2),
+        }),
+        forall|l2: Loc| #[trigger] pred(f, loc_of(x), l2) <==> (match x {
+            RefFunctionLocation::Instruction(b, ins) => pred_instr(f, b.index, ins.index, l2),
+            RefFunctionLocation::Edge(e) => is_block_end(f, e.head, l2),
+            RefFunctionLocation::EmptyBlock(b) => is_in_edge(f, b.index, l2),
+        }),
+{
+    lemma_rfl_in_valid(f, x);
+}
+
 impl<'p> RefProgramLocation<'p> {
 //@ fn impl<'p> RefProgramLocation<'p> :: fn empty_block_forward loops=1
 //@ rewrite 1 `let mut locations = Vec::new();` => `let mut locations: Vec<RefProgramLocation<'p>> = Vec::new();` ## R-type-annot: writes down the element type rustc infers for `locations` (the function returns it); needed because the invariant mentions `locations` before the first `push`
@@ -585,5 +659,169 @@ impl<'p> RefProgramLocation<'p> {
     ensures
         /*@ok*/ r is Ok,
         /*@list*/ r matches Ok(v) ==> lists_rpls(v@, *self.function, |l2: Loc| is_block_end(*self.function, edge.head, l2)),
+//@ end
+
+//@ fn impl<'p> RefProgramLocation<'p> :: fn instruction_forward loops=2
+//@ rewrite 1 `let mut locations = Vec::new();` => `let mut locations: Vec<RefProgramLocation<'p>> = Vec::new();` ## R-type-annot: writes down the element type rustc infers for `locations` (the function returns it); needed because the invariant mentions `locations` before the first `push`
+//@ rewrite 1 `for edge in edges {` => `for edge in it: edges {` ## R-ghost-iter-name: names the ghost iterator of the for loop so that invariants can mention it; no executable change
+//@ spec
+    requires (*self.function).function_wf(), block_of(*self.function, *block),
+    ensures
+        /*@found*/ block.has_instruction(instruction.index) ==> r is Ok,
+        /*@missing*/ !block.has_instruction(instruction.index) ==> r is Err,
+        /*@list*/ r matches Ok(v) ==> lists_rpls(v@, *self.function, |l2: Loc| succ_instr(*self.function, block.index, instruction.index, l2)),
+//@ enter
+    broadcast use {vstd::std_specs::fmt::axiom_fmt_req_all_debug, vstd::std_specs::fmt::axiom_fmt_req_all_usize, fmt_option::axiom_fmt_req_all_option};
+//@ loop 0
+    invariant
+        *instructions == block.instructions,
+        (*self.function).function_wf(), block_of(*self.function, *block),
+        forall|j: int| 0 <= j < i ==> (#[trigger] block.instructions@[j]).index != instruction.index,
+//@ before 0 `let mut locations`
+    let ghost es = edges@;
+//@ loop 1
+    invariant
+        it.seq() == es,
+        locations@.len() == it.index@,
+        forall|j: int| 0 <= j < locations@.len() ==> #[trigger] locations@[j] == rpl_at(self.function, RefFunctionLocation::Edge(es[j])),
+//@ before 0 `let instruction = &instructions[i + 1];`
+    proof { lemma_succ_instr_at(*self.function, block.index, i as int, instruction.index); }
+//@ before 0 `return Ok(locations)`
+    proof {
+        lemma_out_edge_locs(self.function, es, locations@, block.index);
+        lemma_succ_instr_at(*self.function, block.index, i as int, instruction.index);
+        lemma_lists_rpls_ext(locations@, *self.function, |l2: Loc| is_out_edge(*self.function, block.index, l2),
+            |l2: Loc| succ_instr(*self.function, block.index, instruction.index, l2));
+    }
+//@ end
+
+//@ fn impl<'p> RefProgramLocation<'p> :: fn instruction_backward loops=2
+//@ rewrite 1 `let mut locations = Vec::new();` => `let mut locations: Vec<RefProgramLocation<'p>> = Vec::new();` ## R-type-annot: writes down the element type rustc infers for `locations` (the function returns it); needed because the invariant mentions `locations` before the first `push`
+//@ rewrite 1 `for edge in edges {` => `for edge in it: edges {` ## R-ghost-iter-name: names the ghost iterator of the for loop so that invariants can mention it; no executable change
+//@ rewrite 1 `for i in (0..instructions.len()).rev() {` => `for i in it0: (0..instructions.len()).rev() {` ## R-ghost-iter-name: names the ghost iterator of the for loop so that invariants can mention it; no executable change
+//@ spec
+    requires (*self.function).function_wf(), block_of(*self.function, *block),
+    ensures
+        /*@found*/ block.has_instruction(instruction.index) ==> r is Ok,
+        /*@missing*/ !block.has_instruction(instruction.index) ==> r is Err,
+        /*@list*/ r matches Ok(v) ==> lists_rpls(v@, *self.function, |l2: Loc| pred_instr(*self.function, block.index, instruction.index, l2)),
+//@ enter
+    broadcast use {vstd::std_specs::fmt::axiom_fmt_req_all_debug, vstd::std_specs::fmt::axiom_fmt_req_all_usize, fmt_option::axiom_fmt_req_all_option};
+//@ loop 0
+    invariant
+        *instructions == block.instructions,
+        (*self.function).function_wf(), block_of(*self.function, *block),
+        it0.seq().len() == block.instructions@.len(),
+        forall|k: int| 0 <= k < it0.seq().len() ==> #[trigger] it0.seq()[k] == block.instructions@.len() - 1 - k,
+        forall|j: int| block.instructions@.len() - it0.index@ <= j < block.instructions@.len() ==> (#[trigger] block.instructions@[j]).index != instruction.index,
+//@ before 0 `let mut locations`
+    let ghost es = edges@;
+//@ loop 1
+    invariant
+        it.seq() == es,
+        locations@.len() == it.index@,
+        forall|j: int| 0 <= j < locations@.len() ==> #[trigger] locations@[j] == rpl_at(self.function, RefFunctionLocation::Edge(es[j])),
+//@ before 0 `let instruction = &instructions[i - 1];`
+    proof { lemma_pred_instr_at(*self.function, block.index, i as int, instruction.index); }
+//@ before 0 `return Ok(locations)`
+    proof {
+        lemma_in_edge_locs(self.function, es, locations@, block.index);
+        lemma_pred_instr_at(*self.function, block.index, i as int, instruction.index);
+        lemma_lists_rpls_ext(locations@, *self.function, |l2: Loc| is_in_edge(*self.function, block.index, l2),
+            |l2: Loc| pred_instr(*self.function, block.index, instruction.index, l2));
+    }
+//@ end
+
+//@ fn impl<'p> RefProgramLocation<'p> :: fn forward
+//@ spec
+    requires self.rpl_wf(),
+    ensures
+        /*@ok*/ r is Ok,
+        /*@list*/ r matches Ok(v) ==> lists_rpls(v@, *self.function, |l2: Loc| succ(*self.function, self.loc(), l2)),
+//@ enter
+    proof {
+        lemma_step_cases(*self.function, self.function_location);
+        match self.function_location {
+            RefFunctionLocation::Instruction(b, ins) => {
+                assert((|l2: Loc| succ(*self.function, self.loc(), l2)) =~= (|l2: Loc| succ_instr(*self.function, b.index, ins.index, l2)));
+            }
+            RefFunctionLocation::Edge(e) => {
+                assert((|l2: Loc| succ(*self.function, self.loc(), l2)) =~= (|l2: Loc| is_block_start(*self.function, e.tail, l2)));
+            }
+            RefFunctionLocation::EmptyBlock(b) => {
+                assert((|l2: Loc| succ(*self.function, self.loc(), l2)) =~= (|l2: Loc| is_out_edge(*self.function, b.index, l2)));
+            }
+        }
+    }
+//@ end
+
+//@ fn impl<'p> RefProgramLocation<'p> :: fn backward
+//@ spec
+    requires self.rpl_wf(),
+    ensures
+        /*@ok*/ r is Ok,
+        /*@list*/ r matches Ok(v) ==> lists_rpls(v@, *self.function, |l2: Loc| pred(*self.function, self.loc(), l2)),
+//@ enter
+    proof {
+        lemma_step_cases(*self.function, self.function_location);
+        match self.function_location {
+            RefFunctionLocation::Instruction(b, ins) => {
+                assert((|l2: Loc| pred(*self.function, self.loc(), l2)) =~= (|l2: Loc| pred_instr(*self.function, b.index, ins.index, l2)));
+            }
+            RefFunctionLocation::Edge(e) => {
+                assert((|l2: Loc| pred(*self.function, self.loc(), l2)) =~= (|l2: Loc| is_block_end(*self.function, e.head, l2)));
+            }
+            RefFunctionLocation::EmptyBlock(b) => {
+                assert((|l2: Loc| pred(*self.function, self.loc(), l2)) =~= (|l2: Loc| is_in_edge(*self.function, b.index, l2)));
+            }
+        }
+    }
+//@ end
+}
+
+// ---------------------------------------------------------------------------------------------
+// owned <-> borrowed
+
+impl<'f> vstd::std_specs::convert::FromSpecImpl<RefFunctionLocation<'f>> for FunctionLocation {
+    open spec fn obeys_from_spec() -> bool { true }
+    open spec fn from_spec(v: RefFunctionLocation<'f>) -> FunctionLocation { loc_fl(loc_of(v)) }
+}
+impl<'f> From<RefFunctionLocation<'f>> for FunctionLocation {
+//@ fn impl<'f> From<RefFunctionLocation<'f>> for FunctionLocation :: fn from nopub
+//@ spec
+    ensures /*@loc*/ r == loc_fl(loc_of(function_location)),
+//@ end
+}
+
+impl<'p> vstd::std_specs::convert::FromSpecImpl<RefProgramLocation<'p>> for ProgramLocation {
+    open spec fn obeys_from_spec() -> bool { true }
+    open spec fn from_spec(v: RefProgramLocation<'p>) -> ProgramLocation {
+        ProgramLocation { function_index: v.function.index, function_location: loc_fl(loc_of(v.function_location)) }
+    }
+}
+impl<'p> From<RefProgramLocation<'p>> for ProgramLocation {
+//@ fn impl<'p> From<RefProgramLocation<'p>> for ProgramLocation :: fn from nopub
+//@ spec
+    ensures /*@fields*/ r == (ProgramLocation { function_index: program_location.function.index, function_location: loc_fl(loc_of(program_location.function_location)) }),
+//@ end
+}
+
+impl FunctionLocation {
+//@ fn impl FunctionLocation :: fn apply
+//@ rewrite 3 `|_|` => `|_e|` ## R-closure-param-name: names the ignored closure parameter (Verus rejects `_` closure parameters); the parameter stays unused
+//@ closure 0 |_e: Error| -> (r0: Error)
+    ensures r0 == Error::FunctionLocationApplication,
+//@ closure 1 |_e: Error| -> (r0: Error)
+    ensures r0 == Error::FunctionLocationApplication,
+//@ closure 2 |_e: Error| -> (r0: Error)
+    ensures r0 == Error::FunctionLocationApplication,
+//@ spec
+    ensures
+        /*@ok*/ fl_applies(*function, *self) ==> r is Ok,
+        /*@err*/ !fl_applies(*function, *self) ==> r == Err::<RefFunctionLocation<'f>, Error>(Error::FunctionLocationApplication),
+        /*@loc*/ r matches Ok(x) ==> loc_of(x) == fl_loc(*self) && rfl_points_in(*function, x),
+        /*@valid*/ r matches Ok(x) ==> (loc_valid(*function, fl_loc(*self)) ==> rfl_in(*function, x)),
+        /*@roundtrip*/ (*function).function_wf() ==> forall|l: RefFunctionLocation| #![trigger rfl_in(*function, l)]
+            rfl_in(*function, l) && loc_of(l) == fl_loc(*self) ==> r == Ok::<RefFunctionLocation<'f>, Error>(l),
 //@ end
 }
